@@ -25,7 +25,7 @@ DoStart(b) ==
   /\ Room /\ nstart < MaxStarts
   /\ ops' = Append(ops, Op("Start", b)) /\ nstart' = nstart + 1
   /\ IF started /\ (~lost \/ (gate /\ held > 0)) THEN UNCHANGED <<started, lost>>   \* "already started"
-     ELSE started' = (b = "healthy") /\ lost' = FALSE
+     ELSE started' = (b \in {"healthy", "slow-configure"}) /\ lost' = FALSE
   /\ UNCHANGED <<held, gate, emitted>>
 DoStop ==
   /\ Room /\ ops' = Append(ops, Op("Stop", ""))
